@@ -100,15 +100,71 @@ def run(ctx):
                 f2, r2 = ctx.configs[cfg], rep.scoped(cfg)
                 r2.guarded("inventory", "panic sites", lambda f2=f2, r2=r2: rule_inventory(f2, r2, crates=["anstyle_parse"], check_stale=False))
     rep.guarded("inventory", "panic sites", lambda: rule_inventory(facts, rep))
+    rep.guarded("invariants", "anstyle_parse::Parser", lambda: rule_invariants(facts, rep))
     rep.guarded("unsafe", "unsafe sites", lambda: rule_unsafe(facts, rep))
     rep.guarded("str-slice", "untrusted str slicing", lambda: rule_str_slice(facts, rep))
     rep.guarded("utf8", "from_utf8_unchecked", lambda: rule_utf8(facts, rep))
     rep.guarded("positive", "verif_harness::positive", lambda: rule_positive(facts, rep))
-    for r, n in (("panic-site", 120), ("coverage", 60), ("allowlist", 1), ("reset", 9), ("guards", 22), ("params", 8), ("unsafe", 8), ("str-slice", 3), ("utf8", 5), ("positive", 3)):
+    for r, n in (("panic-site", 120), ("coverage", 60), ("allowlist", 1), ("reset", 9), ("guards", 12), ("params", 8), ("invariants", 6), ("unsafe", 8), ("str-slice", 3), ("utf8", 5), ("positive", 3)):
         rep.floor(r, n)
 
 
 # ---------------------------------------------------------------------------------------------
+
+# Inductive field invariants: each holds at construction and is preserved by every store (rule `invariants`), hence at every
+# program point; the interval engine uses them for reads of the field.
+FIELD_INV = {
+    ("anstyle_parse::Parser", "osc_num_params"): (0, 16),      # never above MAX_OSC_PARAMS
+    ("anstyle_parse::Parser", "intermediate_idx"): (0, 2),      # never above MAX_INTERMEDIATES
+}
+
+
+def rule_invariants(facts, rep):
+    consts = consts_of(facts, CRATES)
+    seen = {k: 0 for k in FIELD_INV}
+    for crate in CRATES:
+        for b in facts.bodies(crate):
+            if "hir" not in b or is_test(b["path"]) or b.get("expn"):
+                continue
+            targets = []
+            for n in hir.walk(b["hir"]):
+                if n.get("k") in ("assign", "assignop"):
+                    l = hir.simp(n["l"])
+                    if l.get("k") == "field" and (panics.owner_type(l["e"]), l["name"]) in FIELD_INV:
+                        targets.append((n, (panics.owner_type(l["e"]), l["name"])))
+                elif n.get("k") == "struct":
+                    ty = (n.get("ty") or "").split("<", 1)[0]
+                    for f in n.get("fields", []):
+                        if (ty, f["name"]) in FIELD_INV:
+                            targets.append((dict(f, k="field-init", ln=n.get("ln")), (ty, f["name"])))
+            if not targets:
+                continue
+            cx = panics.Ctx(b, consts, {}, FIELD_INV)
+            for node, key in targets:
+                lo, hi = FIELD_INV[key]
+                seen[key] += 1
+                if node.get("k") == "field-init":
+                    iv = panics.interval(node["e"], cx, {})
+                    what = f"initialised to {hirpp.expr(node['e'])[:40]}"
+                else:
+                    frames = [fr for (x, fr) in hir.visit_with_conds(b["hir"], lambda x: x is node)]
+                    refine = panics.refinements(frames[0] if frames else [], cx, node)
+                    rv = panics.interval(node["r"], cx, refine, at=node)
+                    if node["k"] == "assign":
+                        iv = rv
+                    else:
+                        cur = panics.interval(node["l"], cx, refine, at=node)
+                        iv = None
+                        if cur is not None and rv is not None:
+                            iv = {"AddAssign": (cur[0] + rv[0], cur[1] + rv[1]), "SubAssign": (cur[0] - rv[1], cur[1] - rv[0])}.get(node["op"])
+                    what = hirpp.expr(node)[:60]
+                ok = iv is not None and lo <= iv[0] and iv[1] <= hi
+                rep.check(ok, "invariants", b["path"], f"{key[1]}-stays-in-{lo}..={hi}:{what}".replace(" ", "_")[:110],
+                          f"every store into {key[0].split('::')[-1]}.{key[1]} must keep it within {lo}..={hi} (the value stored is in {iv}); "
+                          f"the bounds checks on the arrays it indexes rest on this", loc(b, node))
+    for key, n in seen.items():
+        rep.check(n >= 2, "invariants", key[0], f"{key[1]}-has-stores", f"{n} stores / initialisers of {key[1]} found", "")
+
 
 def alpha(s):
     """Expression key with locals numbered in order of first appearance (`$self` kept): equal keys = equal up to renaming."""
@@ -123,11 +179,37 @@ def alpha(s):
     return re.sub(r"\$[A-Za-z_][A-Za-z0-9_]*", sub, s)
 
 
+def unreachable(frames, cx, n):
+    """A site guarded by a comparison that the intervals of its operands make impossible (the failing side of an always-true
+    `debug_assert!(i < N)`) cannot be reached."""
+    for fi, f in enumerate(frames):
+        if f.get("kind") != "if":
+            continue
+        c = hir.simp(f["expr"])
+        if not (c.get("k") == "bin" and c.get("op") in ("Lt", "Le", "Gt", "Ge", "Eq", "Ne") and "callee" not in c):
+            continue
+        before = panics.refinements(frames[:fi], cx, c)
+        a, b = panics.interval(c["l"], cx, before, at=c), panics.interval(c["r"], cx, before, at=c)
+        if a is None or b is None:
+            continue
+        op = c["op"]
+        always = {"Lt": a[1] < b[0], "Le": a[1] <= b[0], "Gt": a[0] > b[1], "Ge": a[0] >= b[1], "Eq": a[0] == a[1] == b[0] == b[1],
+                  "Ne": a[1] < b[0] or a[0] > b[1]}[op]
+        never = {"Lt": a[0] >= b[1], "Le": a[0] > b[1], "Gt": a[1] <= b[0], "Ge": a[1] < b[0], "Eq": a[1] < b[0] or a[0] > b[1],
+                 "Ne": a[0] == a[1] == b[0] == b[1]}[op]
+        if (f["val"] and never) or (not f["val"] and always):
+            return f"`{hirpp.expr(c)[:60]}` is always {'true' if always else 'false'} here ({a} vs {b})"
+    return None
+
+
 def discharge(site, cx, body):
     """→ (rule name, explanation) or None"""
     n = site["node"]
     kind = site["kind"]
     frames = site["frames"]
+    why = unreachable(frames, cx, n)
+    if why:
+        return "D-unreachable", why
     refine = panics.refinements(frames, cx, n)
     mac = site.get("mac") or []
     if kind == "BoundsCheck":
@@ -271,7 +353,7 @@ def rule_inventory(facts, rep, crates=None, check_stale=True):
                 continue
             derived = bool(b.get("expn"))
             is_helper = any(b is h for h in helper_bodies)
-            cx = panics.Ctx(b, consts, tables)
+            cx = panics.Ctx(b, consts, tables, FIELD_INV)
             # discharge on the normalised tree (helpers inlined into their callers); inventory completeness on the tree as written
             hs = [] if is_helper else panics.hir_sites(b["hir"])
             hs_raw = panics.hir_sites(b.get("hir_raw", b["hir"]))
